@@ -94,6 +94,8 @@ def generate(R, tier):
         elif r < 0.8:
             b = bytearray(R.choice([10, 13, 32, 58, 71, 69, 84, 72, 80, 47, 49, 46, 255, 0]) for _ in range(R.randint(0, 30)))
         yield {"stream": "http", "http": bytes(b).hex()}
+    for m in H.line_shapes():
+        yield {"stream": "http-line-shapes", "http": m.hex()}
 
 
 def model_line(c):
